@@ -76,8 +76,51 @@ def g_hash_gate(C, rep, rid):
                 why = "the comparison does not cover the whole hash (%s)" % lossy[0][1]
                 continue
             found = True
-        rep.ob(rid, found, fn, "hash gate dominates TrampolineInfo construction", where=loc(s["sp"]), how="eq-edge of (htlc.payment_hash, invoice.payment_hash())",
+        how = "eq-edge of (htlc.payment_hash, invoice.payment_hash())"
+        if not found:
+            # alternative placement: the gate sits in the handler and dominates the table insertion and the registration
+            hh_ok, hh_how = _handler_level_gate(C)
+            if hh_ok:
+                found = True
+                how = hh_how
+        rep.ob(rid, found, fn, "hash gate dominates TrampolineInfo construction", where=loc(s["sp"]), how=how,
                detail="" if found else why)
+
+
+def _handler_level_gate(C):
+    """the equality htlc.payment_hash == payment_hash(classified invoice) dominates both the table entry() call and the
+    add-listener call of the handler (unconditionally: not only for new entries)"""
+    F, X = C.F, C.X
+    H = HHm.handler(C)
+    if H is None or not H.entry or not H.add_calls:
+        return False, ""
+    b = H.body
+    for site in (H.entry[0].bb, H.add_calls[0].bb):
+        ok = False
+        for cnd, truth in lib.dominating_conditions(b, site):
+            sides = None
+            if cnd.kind == "call" and cnd.call.name in ("std::cmp::PartialEq::eq", "std::cmp::PartialEq::ne"):
+                sides = [strip(X.operand(b, a)) for a in cnd.call.args[:2]]
+                eqt = truth if cnd.call.name.endswith("::eq") else (not truth)
+            elif cnd.kind == "cmp" and cnd.op in ("Eq", "Ne"):
+                sides = [strip(X.operand(b, cnd.a)), strip(X.operand(b, cnd.b))]
+                eqt = truth if cnd.op == "Eq" else (not truth)
+            if not sides or not eqt:
+                continue
+
+            def hh(e):
+                return any(x[0] == "field" and x[1] == "payment_hash" and x[2] == "messages::Htlc" for x in walk(e))
+
+            def ih(e):
+                return any(x[0] == "call" and x[1] == "lightning_invoice::Bolt11Invoice::payment_hash" and any(y[0] == "call" and y[4].t.get("rty") == "htlc_manager::HtlcCheckResult" for y in walk(x)) for x in walk(e))
+            a, c2 = sides
+            if (hh(a) and ih(c2) and not ih(a) and not hh(c2)) or (hh(c2) and ih(a) and not ih(c2) and not hh(a)):
+                lossy = [x for side in sides for x in _walk_until_hash(side) if x[0] == "call" and (x[1] in ("std::ops::Index::index",) or x[1].endswith("::first") or x[1].endswith("::get") or "split" in x[1] or x[1].endswith("::len") or x[1].endswith("::last"))]
+                if not lossy:
+                    ok = True
+        if not ok:
+            return False, ""
+    return True, "equality of the two hashes dominates the table insertion and the registration in the handler"
 
 
 def _walk_until_hash(e, _d=0):
